@@ -53,7 +53,8 @@ type SpecM struct {
 	Index      int
 	Primary    *SpecM
 	Default    *SpecM
-	Func       string // "upper_or_same": TransformFunc name
+	Func       string // TransformFunc name: "upper_or_same" (keeps the type) or "to_number" (always number)
+	ViaExpr    bool   // the transform is a TransformExprSpec calling Func on its variable
 }
 
 // FieldNames lists object-spec field names sorted.
@@ -89,7 +90,9 @@ func (s *SpecM) Dump() string {
 		return fmt.Sprintf("Label(%d)", s.Index)
 	case SDefault:
 		return "Default(" + s.Primary.Dump() + ", " + s.Default.Dump() + ")"
-	case STransformFunc, SValidate, SRefine:
+	case STransformFunc:
+		return fmt.Sprintf("TransformFunc(%s expr=%v %s)", s.Func, s.ViaExpr, s.Nested.Dump())
+	case SValidate, SRefine:
 		return s.Kind.String() + "(" + s.Nested.Dump() + ")"
 	case SBlockAttrs:
 		return fmt.Sprintf("BlockAttrs(%s %s req=%v)", s.Name, s.Type.FriendlyName(), s.Required)
@@ -105,6 +108,8 @@ type SpecOpts struct {
 	BlockTypes []string
 	// NoDynamic: attribute types never contain `any` (needed inside BlockMap).
 	NoDynamic bool
+	// BlockBias is the percentage of leaves (where a block is admissible) forced to be block specs.
+	BlockBias int
 }
 
 type specGen struct {
@@ -169,6 +174,9 @@ func (g *specGen) bodySpec(depth int, nlabels int, noDyn bool) *SpecM {
 	}
 	leaf = func(allowBlock bool) *SpecM {
 		k := rapid.IntRange(0, 13).Draw(t, "speckind")
+		if g.o.BlockBias > 0 && allowBlock && depth > 0 && rapid.IntRange(0, 99).Draw(t, "blockbias") < g.o.BlockBias {
+			k = 10
+		}
 		switch {
 		case k <= 3:
 			return attrSpec()
@@ -202,7 +210,11 @@ func (g *specGen) bodySpec(depth int, nlabels int, noDyn bool) *SpecM {
 			if w.Kind == SAttr {
 				w.Type = cty.String
 			}
-			return &SpecM{Kind: STransformFunc, Nested: w, Func: "upper_or_same"}
+			if rapid.IntRange(0, 1).Draw(t, "transform_fn") == 0 {
+				// type-changing transform over an attribute of any type
+				return &SpecM{Kind: STransformFunc, Nested: attrSpec(), Func: "to_number", ViaExpr: rapid.Bool().Draw(t, "via_expr")}
+			}
+			return &SpecM{Kind: STransformFunc, Nested: w, Func: "upper_or_same", ViaExpr: rapid.Bool().Draw(t, "via_expr")}
 		case k == 8:
 			return &SpecM{Kind: SValidate, Nested: attrSpec()}
 		case k == 9:
